@@ -79,22 +79,27 @@ Lemma taglink_now_no_hidden_link :
           (site_entries cquote table_pinned w_hidden_base 1 false) = true.
 Proof. vm_compute. reflexivity. Qed.
 
-(* (d) a HIDDEN root module has an entry in moduleIndex.html and in the root list of index.html *)
+(* (d) before commit 989b1ee a HIDDEN root module had an entry in moduleIndex.html and in the root list of index.html *)
 Lemma w_hidden_root_wf : wf w_hidden_root.
 Proof. apply wf_b_sound. vm_compute. reflexivity. Qed.
 
 Lemma hidden_root_listed : forall p, p = P_module_index \/ p = P_index_roots -> exists e,
-  In e (site_entries cquote table_pinned w_hidden_root 1 false) /\ e_prod e = p /\
+  In e (site_entries cquote table_before_989b1ee w_hidden_root 1 false) /\ e_prod e = p /\
   listing_prod (e_prod e) = true /\ priv_of w_hidden_root (e_obj e) = HIDDEN /\ visible w_hidden_root (e_obj e) = false.
 Proof.
   intros p Hp.
   assert (H : existsb (fun e => N.eqb (e_prod e) p && listing_prod (e_prod e) && Nat.eqb (e_obj e) 1)
-              (site_entries cquote table_pinned w_hidden_root 1 false) = true)
+              (site_entries cquote table_before_989b1ee w_hidden_root 1 false) = true)
     by (destruct Hp; subst p; vm_compute; reflexivity).
   apply existsb_witness in H. destruct H as [e [Hin H]]. apply andb_prop in H. destruct H as [H H3].
   apply andb_prop in H. destruct H as [H1 H2]. apply N.eqb_eq in H1. apply Nat.eqb_eq in H3.
   exists e. rewrite H3. repeat split; [exact Hin|exact H1|exact H2].
 Qed.
+
+Lemma hidden_root_not_listed_now :
+  forallb (fun e => negb (listing_prod (e_prod e)) || visible w_hidden_root (e_obj e))
+          (site_entries cquote table_pinned w_hidden_root 1 false) = true.
+Proof. vm_compute. reflexivity. Qed.
 
 (* (e) a page object whose name needs escaping: the file is written under the percent-encoded name, and the same
    string is used as href -- which, decoded by a conforming client, names a different file *)
